@@ -6,7 +6,7 @@ from kv import Case, xn, xb, xl, xlist, xopt, xbool, xparse
 
 ID = "C18"
 MODULE = "C18"
-IMPORTS = "Bytes RustInt Buffers BuffersProofs"
+IMPORTS = "Bytes RustInt Buffers BuffersProofs BuffersHttp1Link"
 PROFILES = ("dev", "nochk")
 EXHAUSTIVE = False
 KERNEL_SAMPLE = 40
@@ -723,6 +723,12 @@ THEOREMS = [
      r"forall grow junk (b : buf) (cs : stream) (max : N) (patience : option nat) b' rest, grow_ok grow -> wf b -> read_poll grow junk false false b cs max patience = RCancelled b' rest -> exists k pre, patience = Some k /\ before_stall k cs = Some (pre, rest) /\ b_len b' = capacity b' /\ firstn (length (contents b) + length pre) (contents b') = contents b ++ pre /\ (length (contents b) + length pre < length (contents b'))%nat"),
     ("unguarded_cancel_refuted",
      r"exists b cs max k, wf b /\ ~ poll_spec (contents b) cs max (Some k) (read_poll grow_vec (junk_of []) false false b cs max (Some k))"),
+    ("read_reserve_transcriptions_agree",
+     r"forall growH growB junk (read : nat) (b : buf), grows_agree growH growB -> grow_ok growB -> b_len b = capacity b -> (read <= capacity b)%nat -> exists b2, rtm_reserve growB junk read b = Ok b2 /\ capacity b2 = Http1Read.rtem_reserve growH read (capacity b) /\ b_len b2 = capacity b2 /\ (read + 32 <= capacity b2)%nat /\ firstn (capacity b) (b_data b2) = b_data b"),
+    ("read_loop_transcriptions_agree",
+     r"forall growH growB junk mode (max : nat), grows_agree growH growB -> grow_ok growB -> forall fuel buf cap tl d sched b cs, Http1Read.sched_pos sched -> b_len b = capacity b -> capacity b = cap -> firstn (length buf) (b_data b) = buf -> (length buf < cap)%nat -> translates cs mode d sched tl -> same_answer (Http1Read.rtem_loop growH fuel mode max buf cap tl (Http1Read.mk_reader d sched)) (rtm_loop growB junk true fuel (N.of_nat max) (length buf) b cs (Some 0%nat))"),
+    ("read_to_bytes_uses_read_poll",
+     r"forall growH growB junk mode early cl limit d sched, grows_agree growH growB -> grow_ok growB -> Http1Read.sched_pos sched -> let len := N.to_nat (N.min cl limit) in let buf := firstn len early in (length buf < len)%nat -> same_answer (Http1Read.read_to_bytes growH mode early cl limit (Http1Read.mk_reader d sched)) (read_poll growB junk false true (bm_of junk buf (len - length buf)) (strm mode d sched (len - length buf)) (N.of_nat len) (Some 0%nat))"),
     ("read_file_whole",
      r"forall grow junk (chunks : list bytes), grow_ok grow -> N.of_nat (length (concat chunks)) < u64_max -> read_file grow junk (data_stream chunks) = Ok (concat chunks)"),
     ("read_file_complete",
